@@ -942,6 +942,16 @@ func (env *SpecEnv) evalCall(x *SExpr) *Val {
 		case "allocated":
 			v := env.eval(args[0])
 			return boolVal(fmt.Sprintf("(< %s %s)", v.S[0], env.cur.alloc))
+		case "sentinel":
+			// sentinel("pkg/path", "ErrName"): a package-level error variable of another package
+			pp := args[0].Name
+			if !strings.Contains(pp, ".") || !strings.HasPrefix(pp, "github.com") {
+				pp = modPath + "/" + pp
+			}
+			if v := env.pkgScopeLookup(pp, args[1].Name); v != nil {
+				return v
+			}
+			env.fail("unknown sentinel %s.%s", pp, args[1].Name)
 		case "obj":
 			v := env.eval(args[0])
 			if v.K == KIface {
